@@ -10,6 +10,8 @@ import "strconv"
 type vhB struct {
 	prefix string
 	n      int
+	lite   bool // scalar() explores string/number only
+	plain  bool // strings do not carry the pattern index's type prefixes (F_, B_, S_)
 }
 
 func (b *vhB) name(kind string) string {
@@ -31,6 +33,11 @@ func (b *vhB) anyKey() string { return vsymStrN(b.name("k"), 6) }
 func (b *vhB) str() string {
 	s := vsymStrN(b.name("s"), 6)
 	vassume(!IsVariable(s))
+	if b.plain {
+		vassume(!vhasPrefix(s, "F_"))
+		vassume(!vhasPrefix(s, "B_"))
+		vassume(!vhasPrefix(s, "S_"))
+	}
 	return s
 }
 
@@ -39,6 +46,9 @@ func (b *vhB) num() float64 { return vsymNum(b.name("n"), -3, 3) }
 // scalar returns a data scalar whose kind is an explored decision:
 // string, number, bool or null.
 func (b *vhB) scalar() interface{} {
+	if b.lite {
+		return b.scalar2()
+	}
 	switch vchoose(4) {
 	case 0:
 		return b.str()
